@@ -34,6 +34,14 @@ class _Injector:
                 import pandera.errors as pe
 
                 e = pe.SchemaError(None, None, f"injected at {self.count} ({kind})")
+            elif self.exc == "NoArgs":  # exceptions need not carry a message ...
+                e = InjectedFault()
+            elif self.exc == "KeyError0":  # ... nor a string (a missing integer / tuple label, an errno)
+                e = KeyError(0)
+            elif self.exc == "KeyErrorTuple":
+                e = KeyError(("a", self.count))
+            elif self.exc == "OSError2":
+                e = OSError(2, f"injected at {self.count} ({kind})")
             else:
                 e = {"InjectedFault": InjectedFault, "KeyError": KeyError, "ZeroDivisionError": ZeroDivisionError,
                      "AttributeError": AttributeError}[self.exc](f"injected at {self.count} ({kind})")
@@ -217,7 +225,8 @@ def strategy(draw):
     if draw(st.booleans()):
         ft["index"] = draw(st.lists(ints, min_size=n, max_size=n))
     return {"schema": fs, "table": ft, "excs": draw(st.sampled_from([["InjectedFault"], ["InjectedFault", "KeyError"],
-                                                                      ["ZeroDivisionError"], ["AttributeError"], ["SchemaError"], ["SchemaError"]]))}
+                                                                      ["ZeroDivisionError"], ["AttributeError"], ["SchemaError"], ["SchemaError"],
+                                                                      ["NoArgs", "KeyError0"], ["OSError2", "KeyErrorTuple"]]))}
 
 
 def _state(schema, data):
